@@ -361,17 +361,16 @@ def _shape_of(result: tuple[FloatArray, ...] | ScalarCollection) -> tuple[int, .
     """
     if not isinstance(result, tuple):
         result = (result,)
-    shape: list[int] | None = None
+    shapes: list[tuple[int, ...]] = []
     for x in result:
         if hasattr(x, "shape"):
-            thisshape = list(x.shape)
+            shapes.append(tuple(x.shape))
         elif isinstance(x, collections.abc.Sized):
-            thisshape = [len(x)]
-        if shape is None or thisshape[0] > shape[0]:
-            shape = thisshape
+            shapes.append((len(x),))
 
-    assert shape is not None
-    return tuple(shape)
+    assert len(shapes) != 0
+    # the components broadcast against each other when they are assigned
+    return tuple(numpy.broadcast_shapes(*shapes))
 
 
 def _is_type_safe(
